@@ -13,7 +13,9 @@ import (
 	"fmt"
 	"net"
 	"os"
+	"strings"
 	"sync"
+	"sync/atomic"
 	"testing"
 	"time"
 
@@ -125,7 +127,7 @@ func replayLockHeld(t *testing.T, op string, lockedFirst bool) {
 
 // replayAtomicity: while operation op is suspended inside a call to the
 // underlying agent, the shim lock must be held.
-func replayAtomicity(t *testing.T, op string) {
+func replayAtomicity(t *testing.T, op string) string {
 	c1, c2 := net.Pipe()
 	defer c1.Close()
 	defer c2.Close()
@@ -150,8 +152,7 @@ func replayAtomicity(t *testing.T, op string) {
 	}
 	f := ops[op]
 	if f == nil {
-		fmt.Println("VSYM-REPLAY: NOT-REPRODUCED no atomicity replay for " + op)
-		return
+		return "NOT-REPRODUCED no atomicity replay for " + op
 	}
 	g.mu.Lock()
 	g.closed = true
@@ -178,7 +179,75 @@ func replayAtomicity(t *testing.T, op string) {
 	case <-done:
 	case <-time.After(3 * time.Second):
 	}
-	fmt.Println("VSYM-REPLAY:", outcome)
+	return outcome
+}
+
+// replaySplit: operation op is queued behind a held shim lock, a second
+// client's request (a plain acquisition of the shim lock that then holds it
+// for a while) is queued behind it, and the lock is released.  An operation
+// that is one critical section finishes while the second client holds the
+// lock; one that leaves its critical section and enters another is still
+// waiting for the lock when the second client is done: the second client ran
+// in the middle of it.
+func replaySplit(t *testing.T, op string) string {
+	c1, c2 := net.Pipe()
+	defer c1.Close()
+	defer c2.Close()
+	kr := agent.NewKeyring()
+	go agent.ServeAgent(kr, c2)
+	s, err := newShimAgent(c1, false)
+	if err != nil {
+		t.Fatal(err)
+	}
+	s.pubKeyComp = func(x, y ssh.PublicKey) bool { return string(x.Marshal()) < string(y.Marshal()) }
+	p3, hw := rCert(t, "hw", ssh.CertTimeInfinity)
+	kr.Add(agent.AddedKey{PrivateKey: p3})
+	s.AddHardCert(hw, "hw")
+	_, fresh := rCertFor(t, p3)
+	ops := map[string]func(){
+		"List": func() { s.List() }, "Signers": func() { s.Signers() }, "Sign": func() { s.Sign(hw, []byte("d")) },
+		"Add": func() { _, p, _ := ed25519.GenerateKey(rand.Reader); s.Add(agent.AddedKey{PrivateKey: p}) },
+		"Remove": func() { s.Remove(hw) }, "RemoveAll": func() { s.RemoveAll() }, "AddHardCert": func() { s.AddHardCert(fresh, "fresh") },
+		"Lock": func() { s.Lock([]byte("p")) }, "Unlock": func() { s.Unlock([]byte("p")) },
+		"Extension": func() { s.Extension("ext@vsym", []byte("x")) }, "Forward": func() { s.Forward([]byte{11}) },
+	}
+	f := ops[op]
+	if f == nil {
+		return "NOT-REPRODUCED no atomicity replay for " + op
+	}
+	var aDone, bIn sync.WaitGroup
+	var doneFlag, sawDone int32
+	s.mu.Lock()
+	aDone.Add(1)
+	go func() {
+		defer aDone.Done()
+		defer func() { recover() }()
+		f()
+		atomic.StoreInt32(&doneFlag, 1)
+	}()
+	time.Sleep(150 * time.Millisecond) // op is now waiting for the shim lock
+	bIn.Add(1)
+	go func() {
+		defer bIn.Done()
+		s.mu.Lock()
+		time.Sleep(400 * time.Millisecond)
+		sawDone = atomic.LoadInt32(&doneFlag)
+		s.mu.Unlock()
+	}()
+	time.Sleep(150 * time.Millisecond) // the second client is queued behind it
+	s.mu.Unlock()
+	bIn.Wait()
+	fin := make(chan struct{})
+	go func() { aDone.Wait(); close(fin) }()
+	select {
+	case <-fin:
+	case <-time.After(3 * time.Second):
+		return "NOT-REPRODUCED operation did not return"
+	}
+	if sawDone == 0 {
+		return "REPRODUCED " + op + " released the shim lock and took it again: another client's request ran in the middle of it"
+	}
+	return "NOT-REPRODUCED"
 }
 
 func TestVsymReplay(t *testing.T) {
@@ -189,7 +258,11 @@ func TestVsymReplay(t *testing.T) {
 	json.Unmarshal(b, &rp)
 	opA, opB := rp.Facts["opA"], rp.Facts["opB"]
 	if rp.Facts["kind"] == "atomicity" {
-		replayAtomicity(t, opA)
+		out := replayAtomicity(t, opA)
+		if !strings.HasPrefix(out, "REPRODUCED") {
+			out = replaySplit(t, opA)
+		}
+		fmt.Println("VSYM-REPLAY:", out)
 		return
 	}
 	if rp.Facts["kind"] == "lock-held" {
